@@ -22,6 +22,20 @@ Theorem C07_is_idle_layout_conjuncts : forall k,
 Proof. exact is_idle_layout_conjuncts. Qed.
 Print Assumptions C07_is_idle_layout_conjuncts.
 
+(* ... and the conjuncts that belong to kanata itself (each of them was removed or weakened by some seeded change): idle means no
+   sequence mode, no one-shot key, no scroll / mouse movement, no cancel window, no replay, no caps-word, no virtual-key deadline,
+   no key at the OS that the layout no longer produces, no macro custom action between its press and its release, chords v2 idle *)
+Theorem C07_is_idle_kanata_conjuncts : forall k,
+  k_is_idle k = true ->
+  sq_active (k_seq k) = false /\ os_keys (oneshot (k_layout k)) = [] /\
+  k_scroll k = None /\ k_hscroll k = None /\ k_mmv k = None /\ k_mmh k = None /\
+  k_macro_cancel_dur k = 0 /\ k_replay k = None /\ k_caps_word k = None /\ k_vkeys_pending k = [] /\
+  (forall pk, In pk (k_prev_keys k) -> mem_n pk (keycodes (k_layout k)) = true) /\
+  (forall s, In s (states (k_layout k)) -> match s with SeqCustomPending _ | SeqCustomActive _ => False | _ => True end) /\
+  (forall ch, chords2 (k_layout k) = Some ch -> chv2_is_idle ch = true).
+Proof. exact is_idle_kanata_conjuncts. Qed.
+Print Assumptions C07_is_idle_kanata_conjuncts.
+
 (* ---- on the fragment of C04, at the kanata level (Proofs/C07Fragment.v) ----
    KSys: the instance is related to a keymap state (nothing waiting, no one-shot, no sequence, ...); with nothing pending,
    running n more milliseconds before the next input or skipping them gives the same OS events for every continuation *)
